@@ -103,3 +103,17 @@ Inductive prog :=
 | PReturn
 | PIf (a b : prog)            (* if / else (elif chains are nested) *)
 | PLoop (b : prog).           (* for / while: the body any number of times *)
+
+(* Float expressions that sitegen translates symbolically (tools/sitegen/validators.py: locator
+   "float_test"): the operations the source applies, over an abstract carrier.  Model/Kernels.v
+   instantiates it with exact rationals and an abstract logarithm. *)
+Record fops := {
+  ft : Type;
+  f_of_Z : Z -> ft;
+  f_mul : ft -> ft -> ft;
+  f_div : ft -> ft -> ft;
+  f_add : ft -> ft -> ft;
+  f_max : ft -> ft -> ft;
+  f_log : ft -> ft;
+  f_gt : ft -> ft -> bool
+}.
